@@ -1,11 +1,11 @@
 SPECIFICATION Spec
 CONSTANTS
   N = 3
-  MaxDepth = 4
+  MaxDepth = 3
   SpecSet = {"s2"}
-  SizeSet = {"dyn"}
+  SizeSet = {"A", "B", "dyn"}
   TermSet = {1}
-  FaultSteps = {"open", "step"}
+  FaultSteps = {}
 VIEW DumpView
 CONSTRAINT Bound
 ACTION_CONSTRAINT Dump
